@@ -12,7 +12,8 @@ PROPERTY = 'C07'
 RULE = ('deviation-bounded product (<=3 of 10 slots: residue modifications at first / second / middle / last residue, '
         'N-term, C-term, labile, static rule, isotope label, interval) on 14 (quick) / 40 (thorough) proteins over '
         '{K,R,P,D,A} of length 1..7 chosen so that every rule cuts at first / interior / last positions x 6 rules x mc 0..3 '
-        'x semi x 5 return types, and the four semi-/non-enzymatic generators; non-trivial = at least one slot set')
+        'x semi x 5 return types, and the four semi-/non-enzymatic generators; full product: every string of length 1..4 / '
+        '1..6 over {K,R,P,D,A}, plain and with every residue tagged by its own position; non-trivial = at least one slot set')
 ASSUMPTIONS = ['the span list itself is C06\'s subject; here every returned peptide is compared with the slice of the '
                'abstract protein for its span', 'mass-conservation clause on proteins whose modifications are bound to a '
                'position (no labile modification, no N-Term/C-Term static rule), labels 13C/15N only',
@@ -48,7 +49,9 @@ def values_at(axis, level, n):
         return [[['Glycan:Hex', 1]]]
     if axis == 'static':
         return [[{'mods': [['Carbamidomethyl', 1]], 'targets': ['K']}], [{'mods': [['10', 1]], 'targets': ['N-Term']}],
-                [{'mods': [['Oxidation', 1]], 'targets': ['D', 'A']}]]
+                [{'mods': [['Oxidation', 1]], 'targets': ['D', 'A']}],
+                # two rules carrying the same modification text stay two rules
+                [{'mods': [['10', 1]], 'targets': ['K']}, {'mods': [['10', 1]], 'targets': ['D']}]]
     if axis == 'isotope':
         return [['13C'], ['15N']]
     if axis == 'iv':
@@ -65,7 +68,8 @@ def values_at(axis, level, n):
 
 
 def describe(tier):
-    return {'proteins': proteins(tier), 'rules': RULES, 'deviation_bound': 3, 'axes': AXES, 'mc': [0, 1, 2, 3] if tier == 'thorough' else [0, 1, 2]}
+    return {'proteins': proteins(tier), 'all_strings': 'every string of length 1..%d over {K,R,P,D,A}, unmodified and with every '
+            'residue tagged by its position + both termini modified' % (6 if tier == 'thorough' else 4), 'rules': RULES, 'deviation_bound': 3, 'axes': AXES, 'mc': [0, 1, 2, 3] if tier == 'thorough' else [0, 1, 2]}
 
 
 def axes_for(n):
@@ -81,6 +85,9 @@ def axes_for(n):
 
 def shards(tier):
     out = []
+    for n in range(1, (6 if tier == 'thorough' else 4) + 1):
+        for pre in itertools.product('KRPDA', repeat=min(n, 2)):
+            out.append({'kind': 'all', 'n': n, 'pre': ''.join(pre), 'k': 0})
     for seq in proteins(tier):
         for sh in space.dev_shards(axes_for(len(seq)), 3 if len(seq) <= 5 or tier == 'thorough' else 2):
             sh['seq'] = seq
@@ -89,6 +96,15 @@ def shards(tier):
 
 
 def gen(shard, tier):
+    if shard.get('kind') == 'all':
+        # full product: every protein of length n over {K,R,P,D,A}, unmodified and with EVERY residue tagged by its own
+        # position plus both termini modified
+        for t in itertools.product('KRPDA', repeat=shard['n'] - len(shard['pre'])):
+            seq = shard['pre'] + ''.join(t)
+            yield {'seq': seq, 'slots': {}, 'mcs': [0, 1, 2]}, 0, False
+            yield {'seq': seq, 'slots': {'resall': True, 'nterm': [['Acetyl', 1]], 'cterm': [['Amidated', 1]]},
+                   'mcs': [0, 1, 2]}, 3, True
+        return
     seq = shard['seq']
     n = len(seq)
     for slots in space.dev_states(shard, lambda a, lv: values_at(a, lv, n)):
@@ -108,6 +124,9 @@ def build(seq, slots):
             res.setdefault(n // 2, []).extend(v)
         elif k == 'rlast':
             res.setdefault(n - 1, []).extend(v)
+        elif k == 'resall':
+            for i in range(n):       # every residue carries its own position as a tag: any misplacement is visible
+                res.setdefault(i, []).append([str(i + 1), 1])
         else:
             P[k] = v
     if res:
@@ -285,6 +304,20 @@ def check(case, ctx):
                 if a1[0] != a2[0] or (a1[0] == 'ok' and a1[1] != a2[1]):
                     ctx.fail('digest-after-edit', a2[1], a1[1], text=s, rule=rule, edit=edit,
                              edited=obj.serialize() if a2[0] == 'ok' else None)
+    # one parsed protein object that was first asked for its mass, composition, fragments and a copy (queries): the digest
+    # of that object equals the digest of the text
+    st0, obj = lib.call(p.parse, s)
+    if st0 == 'ok':
+        for q in (lambda: p.mass(obj), lambda: p.comp_mass(obj), lambda: p.mass(obj, monoisotopic=False),
+                  lambda: obj.copy(), lambda: p.fragment(obj, 'b', 1), lambda: obj.serialize()):
+            lib.call(q)
+        for rule in RULES[:1] + RULES[3:4]:
+            a1 = lib.call(lambda: list(p.digest(obj, rule, missed_cleavages=1, return_type='str-span')))
+            a2 = lib.call(lambda: list(p.digest(s, rule, missed_cleavages=1, return_type='str-span')))
+            ctx.evals += 2
+            if a1[0] != a2[0] or (a1[0] == 'ok' and a1[1] != a2[1]):
+                ctx.fail('digest-after-queries', a2[1], a1[1], text=s, rule=rule,
+                         note='mass, comp_mass, copy, fragment, serialize were called on the annotation object first')
     ctx.sub_states = npep
     ctx.sub_nontrivial = npep
     ctx.outcome = s
